@@ -28,6 +28,13 @@ structure Msg where
   dirty : Bool
 deriving DecidableEq, Repr
 
+/-- the identifier `getSession` gives a client that connected without one: `auto-` and 24 hex
+digits from crypto/rand.  Represented by a byte string no client can supply (the leading 0 is not
+a printable character, so CONNECT validation never accepts it) and distinct per connection;
+that a random 96-bit identifier never coincides with a supplied one or with another generated
+one is an assumption recorded in the trusted base. -/
+def anonId (c : Nat) : Bytes := 0 :: ("auto".toUTF8.toList ++ (toString c).toUTF8.toList)
+
 /-- `ValidTopic` -/
 def validTopic (t : Bytes) : Bool := !t.isEmpty && !t.contains 35 && !t.contains 43
 
@@ -291,7 +298,7 @@ def first (b : B) (c : Nat) (f : First) (authOk : Bool) : B × List Out :=
       if !authOk then (b, [.send c (.connack false 4), .closed c]) else
       -- getSession
       let (cid, clean) := if req.clientId.isEmpty
-        then (("internalclient".toUTF8.toList ++ (toString c).toUTF8.toList), true)
+        then ((anonId c), true)
         else (req.clientId, req.clean)
       -- only state kept from a CleanSession=0 connection is resumed
       let resumed : Option Sess :=
